@@ -372,6 +372,36 @@ def run_cmixed(pe, acc, case):
             attempt(pe, acc, 'matmul3', c, lambda: mclose(L.matmul(G, H, G), G @ H @ G, pe), True, watch=W)
             attempt(pe, acc, 'matmul-real-complex', c, lambda: mclose(L.matmul(R, G), R @ G, pe) or mclose(L.matmul(G, R), G @ R, pe), True, watch=W)
             attempt(pe, acc, 'inv', c, lambda: mclose(G @ L.inv(G), I, pe), True, watch=W)
+    # Cholesky factor of a Hermitian positive matrix with real observables on the diagonal and complex ones off the diagonal:
+    # refused (as for all-complex matrices), or a lower triangular L with L L^h = A
+    if n > 1:
+        S = build_matrix(pe, fam, (n, n), 'CH', 'obs', symmetric=True)
+        A = np.empty((n, n), dtype=object)
+        for i in range(n):
+            for j in range(n):
+                if i == j:
+                    A[i, j] = S[i, j] + 1.0 if case.get('chol', 'obs-diagonal') == 'obs-diagonal' else float((S[i, j] + 1.0).value)
+                elif i > j:
+                    A[i, j] = pe.CObs(S[i, j], 0.1 * R[i, j])
+                else:
+                    A[i, j] = pe.CObs(S[j, i], -0.1 * R[j, i])
+        for diag in ('obs-diagonal', 'number-diagonal'):
+            if diag == 'number-diagonal':
+                for i in range(n):
+                    A[i, i] = float(A[i, i].value) if isinstance(A[i, i], pe.Obs) else A[i, i]
+            c = dict(case, how='cholesky-' + diag)
+            try:
+                Lc = L.cholesky(A)
+            except Exception:
+                acc.ok(('chol-c', fam, n, diag), True, 'cholesky-complex-refused')
+                continue
+            bad = mclose(Lc @ conjT(Lc, pe), A, pe)
+            if not bad and any(abs(complex(getattr(Lc[i, j], 'real', Lc[i, j]).value if hasattr(getattr(Lc[i, j], 'real', Lc[i, j]), 'value') else 0.0)) > 1e-12 for i in range(n) for j in range(i + 1, n)):
+                bad = 'factor not lower triangular'
+            if bad:
+                acc.fail('cholesky:complex-off-diagonal', c, 'cholesky of a Hermitian matrix with %s and complex off-diagonal observables returned a matrix with L L^h != A: %s' % (diag, bad))
+            else:
+                acc.ok(('chol-c', fam, n, diag), True, 'cholesky')
     acc.sample({'kind': 'cmixed', 'family': fam, 'n': n, 'variants': 'number / complex number / real Obs at [0,0], number at [-1,-1]; C and F order'})
 
 
@@ -508,11 +538,22 @@ def run_jack(pe, acc, case):
                      ('einsum:implicit-kj', lambda: L.einsum('ij,kj', A, B), lambda: L.matmul(A, B.T)),
                      ('einsum:number', lambda: L.einsum('ij,jk->ik', A, Nm), lambda: L.matmul(A, Nm)),
                      ('einsum:trace', lambda: np.array([[L.einsum('ij,ji', A, B)]], dtype=object), lambda: (lambda P: np.array([[P[0, 0] + P[1, 1]]], dtype=object))(L.matmul(A, B)))]
+            # entries mixed with plain numbers (at [0, 0], elsewhere, integer, complex) in the jackknife-based products
+            M00, M11, Mint, Mc = A.copy(), A.copy(), A.copy(), A.copy()
+            M00[0, 0], M11[1, 1], Mint[0, 1], Mc[1, 0] = 1.5, -0.75, 2, 0.5 - 2j
+            for mn, Mx in (('number-at-00', M00), ('number-at-11', M11), ('int-entry', Mint), ('complex-number-entry', Mc)):
+                progs += [('jack_matmul:mixed:%s' % mn, lambda Mx=Mx: L.jack_matmul(Mx, B), lambda Mx=Mx: L.matmul(Mx, B)),
+                          ('jack_matmul:mixed-second:%s' % mn, lambda Mx=Mx: L.jack_matmul(B, Mx), lambda Mx=Mx: L.matmul(B, Mx)),
+                          ('einsum:mixed:%s' % mn, lambda Mx=Mx: L.einsum('ij,jk->ik', Mx, B), lambda Mx=Mx: L.matmul(Mx, B))]
         for name, f, fe in progs:
             sub = dict(case, op=name, N=N)
             if 'op' in case and case['op'] != name:
                 continue
-            ex = fe()
+            try:
+                ex = fe()
+            except Exception as e:
+                acc.fail('%s:exact-product-raised' % name, sub, 'the exact product (linalg.matmul / @) for %s raised %s: %s' % (name, type(e).__name__, e))
+                continue
             before = fingerprint([A, B])
             try:
                 J = f()
@@ -550,4 +591,52 @@ def run_jack(pe, acc, case):
                 acc.fail(name, sub, '%s (%s chain of %d, %s entries): %s' % (name, ik, N, kind, bad))
             else:
                 acc.ok((name, ik, N, kind), True, name)
+        # entries that do not share one chain and one configuration list: the jackknife of a single chain cannot serve them --
+        # refused, or (should the functions learn it) equal to the exact product; never a result on the first entry's chain only
+        if kind == 'obs':
+            def other(how, key):
+                M = np.empty((2, 2), dtype=object)
+                for i in range(2):
+                    for j in range(2):
+                        x = alpha.data('white', cfgs, alpha.rng('c10jm', key, i, j, N), 1.0 + 0.3 * i - 0.2 * j, 0.1)
+                        if how == 'other-ensemble':
+                            M[i, j] = pe.Obs([x], ['B|r1'], idl=[alpha.idl_carrier(cfgs)])
+                        elif how == 'other-replica':
+                            M[i, j] = pe.Obs([x], ['A|r2'], idl=[alpha.idl_carrier(cfgs)])
+                        elif how == 'shifted':
+                            M[i, j] = pe.Obs([x], ['A|r1'], idl=[[c + 1 for c in cfgs]])
+                        elif how == 'stretched':
+                            M[i, j] = pe.Obs([x], ['A|r1'], idl=[[2 * c for c in cfgs]])
+                        elif how == 'one-entry-elsewhere':
+                            M[i, j] = pe.Obs([x], ['A|r1'], idl=[alpha.idl_carrier(cfgs) if (i, j) != (1, 0) else [c + 3 for c in cfgs]])
+                        elif how == 'one-entry-two-replicas':
+                            M[i, j] = pe.Obs([x], ['A|r1'], idl=[alpha.idl_carrier(cfgs)])
+                            if (i, j) == (0, 1):
+                                M[i, j] = M[i, j] + pe.Obs([x[:7]], ['A|r2'])
+                return M
+            A = mat('A')
+            for how in ('other-ensemble', 'other-replica', 'shifted', 'stretched', 'one-entry-elsewhere', 'one-entry-two-replicas'):
+                F = other(how, how)
+                for name, f, fe in (('jack_matmul', lambda: L.jack_matmul(A, F), lambda: L.matmul(A, F)), ('jack_matmul:swapped', lambda: L.jack_matmul(F, A), lambda: L.matmul(F, A)),
+                                    ('einsum', lambda: L.einsum('ij,jk->ik', A, F), lambda: L.matmul(A, F))):
+                    sub = dict(case, op=name, N=N, partner=how)
+                    try:
+                        J = np.asarray(f(), dtype=object)
+                    except Exception:
+                        acc.ok(('jack-mis', name, ik, N, how), True, 'misaligned-refused')
+                        continue
+                    ex = fe()
+                    bad = None
+                    for idx in np.ndindex(ex.shape):
+                        g, e = J[idx], ex[idx]
+                        if not isinstance(g, pe.Obs) or sorted(g.names) != sorted(e.names) or any(list(g.idl[n]) != list(e.idl[n]) for n in e.names):
+                            bad = 'entry %s lives on %s, the exact product on %s' % (idx, getattr(g, 'idl', type(g).__name__), e.idl)
+                            break
+                        if not abs(g.value - e.value) <= 1e-12 * max(1.0, abs(e.value)) or any(np.max(np.abs(g.deltas[n] - e.deltas[n])) > 25.0 / N * np.max(np.abs(e.deltas[n])) for n in e.names):
+                            bad = 'entry %s differs from the exact product' % (idx,)
+                            break
+                    if bad:
+                        acc.fail('jack:misaligned-accepted', sub, '%s with a partner matrix on %s (%s chain of %d) was accepted: %s' % (name, how, ik, N, bad))
+                    else:
+                        acc.ok(('jack-mis', name, ik, N, how), True, 'misaligned-faithful')
     acc.sample({'kind': 'jack', 'idl': ik, 'entries': kind, 'lengths': [20, 80]})
